@@ -16,6 +16,7 @@
 -/
 import SMGo.Spec.Bytes
 import SMGo.Model.ISAValInst
+import SMGo.Model.ISAValGcm
 import SMGo.Gen.ListAmd64Gcm
 open SMGo
 open SMGo.Model.ISAVal
@@ -89,8 +90,7 @@ def expandKey (key : List Nat) : Except String String := do
   pure (showN (wordsToMem e) ++ " " ++ showN (wordsToMem d))
 
 def ghash (h tag data : List Nat) : Except String String := do
-  let s := state [⟨"h", h, false⟩, ⟨"tag", tag, true⟩, ⟨"data", data, false⟩]
-    [("h", arg 0), ("tag", arg 1), ("data", arg 2), ("count", data.length / 16)]
+  let s := ghashState junkG junkV junkK h tag data (data.length / 16)
   let s' ← runRt rtGhash s
   let t ← region s' "tag"
   pure (showN t)
